@@ -56,6 +56,22 @@ Theorem C14_flag_prevails : forall c : config,
   effective_force config g_force true c = true /\ effective_force config g_force false c = g_force c.
 Proof. intros c. split; reflexivity. Qed.
 
+(* invocation spellings: whatever flags, files or path spellings produced the current effective inputs, a
+   non-forced run over a record equal to their fingerprint is a no-op (verbose, --force of an earlier run,
+   -o spellings, flag-versus-file never enter the fingerprint) *)
+Theorem C14_matching_record_noop : forall (w : sched) (st : cstate),
+  has_commands (s_src st) = true -> g_force (s_cfg st) = false ->
+  s_cache st = Some (fp w (s_src st) (s_cfg st)) -> run_c false w false None st = (UpToDate, st).
+Proof. exact (matching_record_noop project config sched fname tree tree fname_eqb tree_eqb files fp has_commands g_force false
+                tree_eqb_spec eq_refl). Qed.
+
+(* ... but the spelling of the project path does: file_path follows it and is hashed (class kf_C14_path) *)
+Theorem C14_refuted_path_spelling :
+  kf_C14_path w1 [mk_file_at "./src-tauri"] [mk_file_at "src-tauri"] c0 = true /\
+  let st1 := snd (run_c false w1 false None (init_state [mk_file_at "./src-tauri"] c0)) in
+  fst (run_c false w1 false None (step_c false st1 (SetSrc _ _ _ _ [mk_file_at "src-tauri"]))) = Success.
+Proof. exact c14_refuted_path. Qed.
+
 (* the repair: hashing the commands sorted by (file, name) makes the command part of the fingerprint
    independent of the discovery order (any two enumerations of the same commands, unique (file, name)) *)
 Theorem C14_repair_sorted_commands_order_independent : forall a a' : analysis,
@@ -74,3 +90,5 @@ Print Assumptions C14_single_file_outside_class.
 Print Assumptions C14_force.
 Print Assumptions C14_flag_prevails.
 Print Assumptions C14_repair_sorted_commands_order_independent.
+Print Assumptions C14_matching_record_noop.
+Print Assumptions C14_refuted_path_spelling.
